@@ -1,12 +1,394 @@
 import NetVerif.Model.Dns
 import NetVerif.Gen.C36
+import NetVerif.Proofs.Lemmas.Dns
+import NetVerif.Proofs.C36
 /-!
 C37 — DNS parsing is safe and self-consistent on any input.
+
+For ALL byte strings `msg` and offsets: `Name.unpack` terminates within the pointer budget
+(the model's explicit fuel never runs out), decoded names are at most 254 bytes and consist of
+labels of 1..63 bytes without '.', the returned offset lies inside the message; `skipName` and
+`Name.unpack`, `SkipQuestion`/`Question`, `skipResource`/`resource`, and the whole-message skip
+and parse paths advance to the same offsets whenever both succeed; an accepted name re-packs and
+re-unpacks to itself.
 -/
 namespace NetVerif.Proofs.C37
-open NetVerif NetVerif.Model.Dns
+open NetVerif NetVerif.Model.Dns NetVerif.Proofs.Dns
 
 theorem gen_limits_eq :
     Gen.C36.nonEncodedNameMax = nameMax ∧ Gen.C36.ptrLimit = ptrLimit := by decide
+
+/-- **Pointer chains terminate**: with the model's fuel the loop of `Name.unpack` never runs out
+of fuel, for every input (at most 127 labels, 10 pointers and one final step are possible). -/
+theorem unpackName_terminates (msg : Bytes) (off : Nat) : unpackName msg off ≠ .error .fuel :=
+  unpackLoop_no_fuel msg _ _ _ _ _ (by simp) (by omega) (by simp [unpackFuel])
+
+/-- …and any larger fuel gives the same answer (the fuel is not a hidden limit). -/
+theorem unpackName_fuel_irrelevant (msg : Bytes) (off k : Nat) :
+    unpackLoop msg (unpackFuel + k) off 0 [] off = unpackName msg off :=
+  unpackLoop_add msg unpackFuel off 0 [] off (unpackName_terminates msg off) k
+
+/-- **Decoded names**: at most `nonEncodedNameMax` bytes; the root "." or labels of 1..63 bytes
+that contain no '.', each followed by '.'. -/
+theorem unpackName_shape (msg : Bytes) (off : Nat) (n : Bytes) (o : Nat)
+    (h : unpackName msg off = .ok (n, o)) :
+    n.length ≤ Gen.C36.nonEncodedNameMax ∧ NameShape n := by
+  have := unpackLoop_shape msg unpackFuel off 0 [] off n o (by intro l hl; simp at hl)
+    (by simp [textOf]) (by simpa [textOf, unpackName] using h)
+  refine ⟨this.1, ?_⟩
+  rcases this.2 with ⟨_, h1⟩ | h2
+  · exact Or.inl h1
+  · exact Or.inr h2
+
+/-- Accepted names are canonical in the sense of C36. -/
+theorem unpackName_canonical (msg : Bytes) (off : Nat) (n : Bytes) (o : Nat)
+    (h : unpackName msg off = .ok (n, o)) : C36.Canonical n :=
+  unpackName_shape msg off n o h
+
+/-- **Accepted names re-pack and re-unpack to themselves.** -/
+theorem name_repack_stable (msg : Bytes) (off : Nat) (n : Bytes) (o : Nat)
+    (h : unpackName msg off = .ok (n, o)) :
+    ∃ bs, packName n 0 none = .ok (bs, none) ∧ unpackName bs 0 = .ok (n, bs.length) := by
+  rcases C36.name_roundtrip_nocomp n 0 (unpackName_canonical msg off n o h) with ⟨bs, hp, hu⟩
+  refine ⟨bs, hp, ?_⟩
+  simpa using hu [] []
+
+/-! ## Offsets -/
+
+/-- once a pointer has been followed the returned offset is the remembered one -/
+theorem unpackLoop_newOff (msg : Bytes) : ∀ (fuel cur ptr : Nat) (name : Bytes) (newOff : Nat) (n : Bytes) (o : Nat),
+    ptr ≠ 0 → unpackLoop msg fuel cur ptr name newOff = .ok (n, o) → o = newOff := by
+  intro fuel
+  induction fuel with
+  | zero => intro cur ptr name newOff n o _ h; simp [unpackLoop] at h
+  | succ fuel ih =>
+    intro cur ptr name newOff n o hp h
+    unfold unpackLoop at h
+    split at h
+    · simp at h
+    · split at h
+      · split at h
+        · simp at h; exact h.2.symm
+        · split at h
+          · simp at h
+          · split at h
+            · simp at h
+            · split at h
+              · simp at h
+              · exact ih _ _ _ _ _ _ hp h
+      · split at h
+        · split at h
+          · simp at h
+          · split at h
+            · simp at h
+            · have := ih _ _ _ _ _ _ (by omega) h
+              simpa [hp] using this
+        · simp at h
+
+theorem drop_cons_lt {msg : Bytes} {cur c : Nat} {rest : Bytes} (h : msg.drop cur = c :: rest) :
+    cur + 1 + rest.length = msg.length := by
+  have := congrArg List.length h
+  simp at this
+  omega
+
+/-- The offset returned by `Name.unpack` is inside the message and past `off`. -/
+theorem unpackLoop_offset (msg : Bytes) : ∀ (fuel cur : Nat) (name : Bytes) (newOff : Nat) (n : Bytes) (o : Nat),
+    unpackLoop msg fuel cur 0 name newOff = .ok (n, o) → cur < o ∧ o ≤ msg.length := by
+  intro fuel
+  induction fuel with
+  | zero => intro cur name newOff n o h; simp [unpackLoop] at h
+  | succ fuel ih =>
+    intro cur name newOff n o h
+    unfold unpackLoop at h
+    split at h
+    · simp at h
+    · rename_i c rest hdrop
+      have hlen := drop_cons_lt hdrop
+      split at h
+      · split at h
+        · simp at h; omega
+        · split at h
+          · simp at h
+          · split at h
+            · simp at h
+            · split at h
+              · simp at h
+              · have := ih _ _ _ _ _ h
+                omega
+      · split at h
+        · split at h
+          · simp at h
+          · rename_i c1 rest' 
+            split at h
+            · simp at h
+            · have := unpackLoop_newOff msg _ _ _ _ _ _ _ (by omega) h
+              simp at this
+              simp at hlen
+              omega
+        · simp at h
+
+theorem unpackName_offset (msg : Bytes) (off : Nat) (n : Bytes) (o : Nat)
+    (h : unpackName msg off = .ok (n, o)) : off < o ∧ o ≤ msg.length :=
+  unpackLoop_offset msg _ _ _ _ _ _ h
+
+/-- **skipName and Name.unpack advance equally** whenever both succeed. -/
+theorem skipLoop_unpackLoop_agree (msg : Bytes) : ∀ (f1 f2 cur : Nat) (name : Bytes) (newOff : Nat)
+    (o1 : Nat) (n : Bytes) (o2 : Nat),
+    skipLoop msg f1 cur = .ok o1 → unpackLoop msg f2 cur 0 name newOff = .ok (n, o2) → o1 = o2 := by
+  intro f1
+  induction f1 with
+  | zero => intro f2 cur name newOff o1 n o2 h; simp [skipLoop] at h
+  | succ f1 ih =>
+    intro f2 cur name newOff o1 n o2 h1 h2
+    cases f2 with
+    | zero => simp [unpackLoop] at h2
+    | succ f2 =>
+      unfold skipLoop at h1
+      unfold unpackLoop at h2
+      split at h1
+      · simp at h1
+      · rename_i c rest hdrop
+        simp only [hdrop] at h2
+        split at h1
+        · rename_i hc
+          simp only [hc, if_true] at h2
+          split at h1
+          · rename_i hc0
+            simp [hc0] at h1 h2
+            omega
+          · rename_i hc0
+            simp only [hc0, if_false] at h2
+            split at h1
+            · simp at h1
+            · rename_i hr
+              simp only [hr, if_false] at h2
+              split at h2
+              · simp at h2
+              · split at h2
+                · simp at h2
+                · exact ih _ _ _ _ _ _ _ h1 h2
+        · rename_i hc
+          simp only [hc, if_false] at h2
+          split at h1
+          · rename_i hc3
+            simp only [hc3, if_true] at h2
+            split at h2
+            · simp at h2
+            · split at h2
+              · simp at h2
+              · have := unpackLoop_newOff msg _ _ _ _ _ _ _ (by omega) h2
+                simp at this h1
+                omega
+          · simp at h1
+
+theorem skipName_unpackName_agree (msg : Bytes) (off o1 : Nat) (n : Bytes) (o2 : Nat)
+    (h1 : skipName msg off = .ok o1) (h2 : unpackName msg off = .ok (n, o2)) : o1 = o2 :=
+  skipLoop_unpackLoop_agree msg _ _ _ _ _ _ _ _ h1 h2
+
+theorem u16At_off {msg : Bytes} {off v o : Nat} (h : u16At msg off = .ok (v, o)) : o = off + 2 := by
+  unfold u16At at h
+  split at h <;> simp at h
+  exact h.2.symm
+
+theorem u32At_off {msg : Bytes} {off v o : Nat} (h : u32At msg off = .ok (v, o)) : o = off + 4 := by
+  unfold u32At at h
+  split at h <;> simp at h
+  exact h.2.symm
+
+theorem skip16_off {msg : Bytes} {off o : Nat} (h : skip16 msg off = .ok o) : o = off + 2 := by
+  unfold skip16 at h
+  split at h <;> simp at h
+  exact h.symm
+
+theorem skip32_off {msg : Bytes} {off o : Nat} (h : skip32 msg off = .ok o) : o = off + 4 := by
+  unfold skip32 at h
+  split at h <;> simp at h
+  exact h.symm
+
+/-- **SkipQuestion and Question advance equally** whenever both succeed. -/
+theorem skipQuestion_unpackQuestion_agree (msg : Bytes) (off o1 : Nat) (q : Question) (o2 : Nat)
+    (h1 : skipQuestion msg off = .ok o1) (h2 : unpackQuestion msg off = .ok (q, o2)) : o1 = o2 := by
+  unfold skipQuestion at h1
+  unfold unpackQuestion at h2
+  split at h1
+  · simp at h1
+  · rename_i s1 hs1
+    split at h2
+    · simp at h2
+    · rename_i n u1 hu1
+      have e1 := skipName_unpackName_agree msg off s1 n u1 hs1 hu1
+      subst e1
+      split at h1
+      · simp at h1
+      · rename_i s2 hs2
+        split at h2
+        · simp at h2
+        · rename_i t u2 hu2
+          have e2 := skip16_off hs2
+          have e2' := u16At_off hu2
+          split at h2
+          · simp at h2
+          · rename_i c u3 hu3
+            have e3 := skip16_off h1
+            have e3' := u16At_off hu3
+            simp at h2
+            omega
+
+/-- **skipResource and Parser.resource advance equally** whenever both succeed (the skip path
+reads the same Length field and adds it to the same offset). -/
+theorem skipResource_unpackResource_agree (msg : Bytes) (off o1 : Nat) (r : Resource) (o2 : Nat)
+    (h1 : skipResource msg off = .ok o1) (h2 : unpackResource msg off = .ok (r, o2)) : o1 = o2 := by
+  unfold skipResource at h1
+  unfold unpackResource unpackRHeader at h2
+  split at h1
+  · simp at h1
+  · rename_i s1 hs1
+    split at h2
+    · simp at h2
+    · rename_i hd oh hh
+      split at hh
+      · simp at hh
+      · rename_i n u1 hu1
+        have e1 := skipName_unpackName_agree msg off s1 n u1 hs1 hu1
+        subst e1
+        split at h1
+        · simp at h1
+        · rename_i s2 hs2
+          have e2 := skip16_off hs2
+          subst e2
+          split at h1
+          · simp at h1
+          · rename_i s3 hs3
+            have e3 := skip16_off hs3
+            subst e3
+            split at h1
+            · simp at h1
+            · rename_i s4 hs4
+              have e4 := skip32_off hs4
+              subst e4
+              split at h1
+              · simp at h1
+              · rename_i len s5 hs5
+                split at hh
+                · simp at hh
+                · rename_i t u2 hu2
+                  have f2 := u16At_off hu2
+                  subst f2
+                  split at hh
+                  · simp at hh
+                  · rename_i c u3 hu3
+                    have f3 := u16At_off hu3
+                    subst f3
+                    split at hh
+                    · simp at hh
+                    · rename_i ttl u4 hu4
+                      have f4 := u32At_off hu4
+                      subst f4
+                      split at hh
+                      · simp at hh
+                      · rename_i len' u5 hu5
+                        rw [hs5] at hu5
+                        simp at hu5
+                        simp at hh
+                        rcases hh with ⟨hhd, hoh⟩
+                        subst hhd hoh
+                        split at h2
+                        · simp at h2
+                        · simp at h2
+                          split at h1
+                          · simp at h1
+                          · simp at h1
+                            rcases hu5 with ⟨hl, hs⟩
+                            subst hl hs
+                            omega
+
+theorem skipQuestions_agree (msg : Bytes) : ∀ (k off o1 : Nat) (qs : List Question) (o2 : Nat),
+    skipQuestions msg k off = .ok o1 → unpackQuestions msg k off = .ok (qs, o2) → o1 = o2 := by
+  intro k
+  induction k with
+  | zero => intro off o1 qs o2 h1 h2; simp [skipQuestions] at h1; simp [unpackQuestions] at h2; omega
+  | succ k ih =>
+    intro off o1 qs o2 h1 h2
+    unfold skipQuestions at h1
+    unfold unpackQuestions at h2
+    split at h1
+    · simp at h1
+    · rename_i s hs
+      split at h2
+      · simp at h2
+      · rename_i q u hu
+        have := skipQuestion_unpackQuestion_agree msg off s q u hs hu
+        subst this
+        split at h2
+        · simp at h2
+        · rename_i qs' u' hu'
+          simp at h2
+          have := ih _ _ _ _ h1 hu'
+          omega
+
+theorem skipResources_agree (msg : Bytes) : ∀ (k off o1 : Nat) (rs : List Resource) (o2 : Nat),
+    skipResources msg k off = .ok o1 → unpackResources msg k off = .ok (rs, o2) → o1 = o2 := by
+  intro k
+  induction k with
+  | zero => intro off o1 rs o2 h1 h2; simp [skipResources] at h1; simp [unpackResources] at h2; omega
+  | succ k ih =>
+    intro off o1 rs o2 h1 h2
+    unfold skipResources at h1
+    unfold unpackResources at h2
+    split at h1
+    · simp at h1
+    · rename_i s hs
+      split at h2
+      · simp at h2
+      · rename_i r u hu
+        have := skipResource_unpackResource_agree msg off s r u hs hu
+        subst this
+        split at h2
+        · simp at h2
+        · rename_i rs' u' hu'
+          simp at h2
+          have := ih _ _ _ _ h1 hu'
+          omega
+
+/-- **Whole message**: skipping every record (`SkipAllQuestions` … `SkipAllAdditionals`) and
+parsing every record (`Message.Unpack`) end at the same offset whenever both succeed. -/
+theorem skipMessage_unpackMessage_agree (msg : Bytes) (o1 : Nat) (m : Message) (o2 : Nat)
+    (h1 : skipMessage msg = .ok o1) (h2 : unpackMessageOff msg = .ok (m, o2)) : o1 = o2 := by
+  unfold skipMessage at h1
+  unfold unpackMessageOff at h2
+  split at h1
+  · simp at h1
+  · rename_i w hw
+    simp only [hw] at h2
+    split at h1
+    · simp at h1
+    · rename_i a1 ha1
+      split at h2
+      · simp at h2
+      · rename_i qs b1 hb1
+        have e1 := skipQuestions_agree msg _ _ _ _ _ ha1 hb1
+        subst e1
+        split at h1
+        · simp at h1
+        · rename_i a2 ha2
+          split at h2
+          · simp at h2
+          · rename_i an b2 hb2
+            have e2 := skipResources_agree msg _ _ _ _ _ ha2 hb2
+            subst e2
+            split at h1
+            · simp at h1
+            · rename_i a3 ha3
+              split at h2
+              · simp at h2
+              · rename_i au b3 hb3
+                have e3 := skipResources_agree msg _ _ _ _ _ ha3 hb3
+                subst e3
+                split at h2
+                · simp at h2
+                · rename_i ad b4 hb4
+                  simp at h2
+                  have := skipResources_agree msg _ _ _ _ _ h1 hb4
+                  omega
 
 end NetVerif.Proofs.C37
